@@ -55,7 +55,7 @@
 (***************************************************************************)
 EXTENDS Integers, Sequences, FiniteSets, TLC, Json, IOUtils, CSV, SequencesExt
 
-CONSTANTS MaxLen, MaxGen, Protos, Times, Designs, Emit
+CONSTANTS MaxLen, MaxGen, Protos, Times, FreeAll, Designs, Emit
 
 Table == JsonDeserialize("c15_table.json")
 StartFailDone == Table.engine.startfail_done
@@ -70,8 +70,9 @@ OkScript(p, s) ==
     /\ \A i \in 1..Len(s) : s[i] = "close" => i = Len(s)
     /\ p = "txsubmission" => s[1] = "done"        \* generation 1 is waiting in TxIdsBlocking: only Done (or a reply) is legal
 Scripts(p) == {s \in UNION {[1..n -> Steps] : n \in 1..MaxLen} : OkScript(p, s)}
-\* a timing says something only if a step follows the first done
-Timed(s, t) == t = "free" \/ FirstDone(s) < Len(s)
+\* a timing says something only if a step follows the first done; "free" (the union of the others) is explored for
+\* those scripts too iff FreeAll (thorough tier)
+Timed(s, t) == IF FirstDone(s) < Len(s) THEN (t # "free" \/ FreeAll) ELSE t = "free"
 CaseSpace == {[p |-> p, s |-> s, t |-> t, design |-> d] : p \in Protos, s \in UNION {Scripts(p) : p \in Protos}, t \in Times, d \in Designs}
 CaseOk(x) == x.s \in Scripts(x.p) /\ Timed(x.s, x.t)
 
@@ -323,8 +324,9 @@ CallsReturn == (mux = "down") ~> (Ret1 /\ (pc2 # "idle" => Ret2))
 CloseCompletes == (uc # "no") ~> (uc = "ret" /\ errClosed /\ Alive = {} /\ Ret1 /\ Ret2)
 ScriptPlayed == <>(PeerDone /\ uc # "no")
 \* acyclic finite graph: the same on terminal states (quick tier), and the old instances are gone at every rest
-TerminalGood == (Terminal /\ Repaired) => (PeerDone /\ uc = "ret" /\ errClosed /\ Alive = {} /\ Ret1 /\ Ret2)
-RestGood == AtRest => (OldAlive = {} /\ pc2 # "idle" /\ ((Repaired /\ mux = "down") => (Ret1 /\ Ret2)))
+\* (the code as it is satisfies it as well if Protocol.Start closes DoneChan on a failed registration)
+TerminalGood == (Terminal /\ (Repaired \/ StartFailDone)) => (PeerDone /\ uc = "ret" /\ errClosed /\ Alive = {} /\ Ret1 /\ Ret2)
+RestGood == AtRest => (OldAlive = {} /\ pc2 # "idle" /\ (((Repaired \/ StartFailDone) /\ mux = "down") => (Ret1 /\ Ret2)))
 
 --------------------------------------------------------------------------
 CaseRow(x) == [kind |-> "restart", proto |-> x.p, script |-> x.s, timing |-> x.t]
